@@ -7,6 +7,7 @@ pub mod rlex;
 pub mod rparse;
 pub mod checks;
 pub mod bind;
+pub mod oracle;
 
 use engine::Tier;
 
